@@ -87,6 +87,9 @@ def check_case(case, common, out, collect=None):
     elif D.equiv_headtail(ref[1], pub[1], case[3], prog.order_free, prog.index_free) is False:
         viol(out, "C01.compute:result-differs", cid, f"unoptimized={D.describe(ref[1])} compute()={D.describe(pub[1])}", replay)
     if rc:
+        for msg in rc.harness_errors:
+            out["errors"].append("rule contract: " + msg)
+        rc.harness_errors.clear()
         fired = rc.fired - f0
         for rname, r_ref, r_out, why in rc.violations:
             viol(out, f"C01.rule[{rname}]:den(out)~den(ref)", f"{cid} ref={r_ref[:80]}", f"{why}; out={r_out}", replay)
